@@ -264,3 +264,19 @@ func ClampsByOtherLength(data []byte) string {
 	}
 	return upper[:n]
 }
+
+// JoinsStaleBuffer violates R17.8 JOIN-BUFFER-FRESH: a skipped cell keeps the previous row's text.
+func JoinsStaleBuffer(rows [][]string, skip func(string) bool) []string {
+	var out []string
+	buf := make([]string, 4)
+	for _, row := range rows {
+		for i, cell := range row {
+			if i >= len(buf) || skip(cell) {
+				continue
+			}
+			buf[i] = cell
+		}
+		out = append(out, strings.Join(buf, ","))
+	}
+	return out
+}
